@@ -63,7 +63,7 @@ type pmCfg struct {
 	Meta     int      `json:"meta,omitempty"` // 0 GetMetadata error, 1 (nil, nil), 2 metadata
 	VerValid bool     `json:"ver_valid,omitempty"`
 	VerKind  int      `json:"ver_kind,omitempty"` // which valid (or invalid) version text the plugin reports
-	Caps     []string `json:"caps,omitempty"` // TI | Rev | Other
+	Caps     []string `json:"caps,omitempty"`     // TI | Rev | Other
 }
 
 type scCfg struct {
@@ -81,9 +81,9 @@ type scCfg struct {
 	Rev       int    `json:"rev"`  // 0 ok, 1 revoked, 2 validator error, 3 too many results, 4 nil result entry
 	Resp      int    `json:"resp"` // 0 error, 1 (nil, nil), 2 response
 	AllProc   bool   `json:"all_processed"`
-	TI        int    `json:"ti"`         // 0 missing, 1 success, 2 failure
+	TI        int    `json:"ti"`          // 0 missing, 1 success, 2 failure
 	RevV      int    `json:"rev_verdict"` // 0 missing, 1 success, 2 failure
-	Payload   int    `json:"payload"`    // 0 not a payload, 1 no annotations, 2 annotations k=v, 3 annotations k=other
+	Payload   int    `json:"payload"`     // 0 not a payload, 1 no annotations, 2 annotations k=v, 3 annotations k=other
 	DescMatch bool   `json:"desc_match"`
 	MetaReq   bool   `json:"meta_req"`
 	DescGen   bool   `json:"descgen_err"`
@@ -96,9 +96,10 @@ type scCfg struct {
 	// verificationResults instead of nil; bit4 empty (non-nil) plugin config
 	Variant int `json:"variant,omitempty"`
 	// further realisation choices the model's facts do not depend on
-	NonCritAttr   bool `json:"noncrit_attr,omitempty"`    // a non-critical extended attribute (string key) no plugin lists as processed
-	NonStrNonCrit bool `json:"nonstr_noncrit,omitempty"`  // a non-critical extended attribute under an integer label (COSE)
-	AttrOrder     int  `json:"attr_order,omitempty"`      // 0 as built, 1 reversed, 2 rotated by one
+	NonCritAttr   bool `json:"noncrit_attr,omitempty"`   // a non-critical extended attribute (string key) no plugin lists as processed
+	NonStrNonCrit bool `json:"nonstr_noncrit,omitempty"` // a non-critical extended attribute under an integer label (COSE)
+	AttrOrder     int  `json:"attr_order,omitempty"`     // 0 as built, 1 reversed, 2 rotated by one
+	IntKeyKind    int  `json:"int_key_kind,omitempty"`   // the integer labels used: 0 small positive int64, 1 negative, 2 large int64, 3 Go uint64 value
 }
 
 type implCfg struct {
@@ -271,7 +272,7 @@ func optBool(k int) string {
 }
 
 func scTerm(s scCfg) string {
-	s.Variant, s.RespJSON, s.NonCritAttr, s.NonStrNonCrit, s.AttrOrder = 0, "", false, false, 0
+	s.Variant, s.RespJSON, s.NonCritAttr, s.NonStrNonCrit, s.AttrOrder, s.IntKeyKind = 0, "", false, false, 0, 0
 	if s.PInvKind == 3 {
 		s.PInvKind = 2
 	}
@@ -363,12 +364,12 @@ type libVerifier interface {
 type env struct {
 	shared      libVerifier // history groups: the one verifier instance all steps use
 	sharedParts *parts
-	now      time.Time
-	good     Chain
-	other    Chain
-	desc     ocispec.Descriptor // what the payloads describe (also the digest of blobContent)
-	ref      string
-	envCache map[string][]byte
+	now         time.Time
+	good        Chain
+	other       Chain
+	desc        ocispec.Descriptor // what the payloads describe (also the digest of blobContent)
+	ref         string
+	envCache    map[string][]byte
 }
 
 func newEnv() *env {
@@ -406,6 +407,19 @@ func (e *env) payload(kind int) []byte {
 	return PayloadFor(d)
 }
 
+// intKey: an attribute key that is not a string (a COSE integer label).
+func intKey(kind, n int) any {
+	switch kind {
+	case 1:
+		return int64(-70000 - n)
+	case 2:
+		return int64(1)<<62 + int64(n)
+	case 3:
+		return uint64(3000 + n)
+	}
+	return int64(1000 + 1000*n)
+}
+
 // envelope returns the signature bytes realising the envelope-borne facts of s.
 func (e *env) envelope(s scCfg) []byte {
 	if s.Sig == 0 {
@@ -418,7 +432,7 @@ func (e *env) envelope(s scCfg) []byte {
 	if pk == 1 && s.Variant&4 != 0 {
 		pk = 11
 	}
-	key := fmt.Sprintf("%s|%d|%d|%d|%v|%v|%v|%d|%d|%v|%v|%d", s.Format, s.PAttr, s.PInvKind, s.Minver, s.NonStr, s.Crit, s.ExpFail, pk, s.Sig, s.NonCritAttr, s.NonStrNonCrit, s.AttrOrder)
+	key := fmt.Sprintf("%s|%d|%d|%d|%v|%v|%v|%d|%d|%v|%v|%d", s.Format, s.PAttr, s.PInvKind, s.Minver, s.NonStr, s.Crit, s.ExpFail, pk, s.Sig, s.NonCritAttr, s.NonStrNonCrit, s.AttrOrder*10+s.IntKeyKind)
 	if b, ok := e.envCache[key]; ok {
 		return b
 	}
@@ -450,13 +464,13 @@ func (e *env) envelope(s scCfg) []byte {
 		attrs = append(attrs, signature.Attribute{Key: critKey, Critical: true, Value: "must be processed"})
 	}
 	if s.NonStr {
-		attrs = append(attrs, signature.Attribute{Key: int64(1000), Critical: true, Value: "int-labelled"})
+		attrs = append(attrs, signature.Attribute{Key: intKey(s.IntKeyKind, 0), Critical: true, Value: "int-labelled"})
 	}
 	if s.NonCritAttr {
 		attrs = append(attrs, signature.Attribute{Key: "io.example.optional", Critical: false, Value: ""})
 	}
 	if s.NonStrNonCrit {
-		attrs = append(attrs, signature.Attribute{Key: int64(2000), Critical: false, Value: "int-labelled, optional"})
+		attrs = append(attrs, signature.Attribute{Key: intKey(s.IntKeyKind, 1), Critical: false, Value: "int-labelled, optional"})
 	}
 	switch {
 	case s.AttrOrder == 1:
@@ -713,7 +727,9 @@ type parts struct {
 
 func (e *env) scriptRev(rs *RevScript, sc scCfg) {
 	var results []*revresult.CertRevocationResult
-	mk := func(r revresult.Result) *revresult.CertRevocationResult { return &revresult.CertRevocationResult{Result: r} }
+	mk := func(r revresult.Result) *revresult.CertRevocationResult {
+		return &revresult.CertRevocationResult{Result: r}
+	}
 	for i := 0; i < len(e.good); i++ {
 		results = append(results, mk(revresult.ResultOK))
 	}
